@@ -1,7 +1,7 @@
 // =============================================================================
 // TRUSTED PRELUDE (unit `upgradable`, part 1): hyper's server connection builders and connection futures
 // (http1 / http2) as stand-ins with ghost attributes, the marker traits the extracted text names, std::io
-// bits, `Poll::map_err`.  Used together with prelude/accept_task.rs, prelude/shutdown.rs (event history `Ev`,
+// bits, `Poll::map_err`.  (`mod hyper`: prelude/upgradable_hyper.rs.)  Used together with prelude/accept_task.rs, prelude/shutdown.rs (event history `Ev`,
 // `Future`, `Connection`), prelude/serving.rs (`From<T> for T`, `BoxError`, `Body`) and prelude/sniff_bytes.rs.
 // Hand-written; every item is an assumption listed in evidence.
 // =============================================================================
@@ -23,27 +23,11 @@ pub assume_specification<T, E, U, F: FnOnce(E) -> U> [std::task::Poll::<Result<T
 #[verifier::external_body]
 pub struct TokioExecutor { _p: PhantomData<u8> }
 
-pub mod hyper {
-    use super::*;
-    /// `hyper::Error`: opaque
-    #[verifier::external_body]
-    pub struct Error { _p: PhantomData<u8> }
-    pub mod body {
-        use super::super::*;
-        #[verifier::external_body]
-        pub struct Incoming { _p: PhantomData<u8> }
-    }
-    pub mod service {
-        pub trait HttpService<ReqBody> { type ResBody; type Error; type Future; }
-    }
-    pub mod rt {
-        pub trait Read {}
-        pub trait Write {}
-        pub mod bounds {
-            pub trait Http2ServerConnExec<F, B> {}
-        }
-    }
-}
+// `pub mod hyper { .. }`: opened in the unit text (prelude/upgradable_hyper.rs + prelude/sniff_hyper_rt.rs for `hyper::rt`)
+/// `std::io::IoSlice` (named by the `Write` stand-in trait of prelude/sniff_hyper_rt.rs)
+#[verifier::external_type_specification]
+#[verifier::external_body]
+pub struct ExIoSlice<'a>(std::io::IoSlice<'a>);
 
 // ---- hyper::server::conn::http1 ----
 // Ghost attributes of a connection future: `io()` the transport it reads the client's bytes from, `service()`
